@@ -25,6 +25,7 @@ package main
 
 import (
 	"bytes"
+	"context"
 	"fmt"
 	"sort"
 	"strings"
@@ -185,20 +186,6 @@ func c31() {
 		return
 	}
 	t := fanout(run)
-	// keep, per handler, only the violations whose set of non-contributing ticket kinds is minimal
-	var keep []vio
-	for _, v := range t.Violations {
-		dominated := false
-		for _, o := range t.Violations {
-			if o.Key != v.Key && c31Path(o.Key) == c31Path(v.Key) && c31Subset(c31Kinds(o.Key), c31Kinds(v.Key)) {
-				dominated = true
-			}
-		}
-		if !dominated {
-			keep = append(keep, v)
-		}
-	}
-	t.Violations = keep
 	report(run, t)
 	run.Rule = "part A: all 5^4 x 2 ticket lists (per miner absent/valid/bad signature/other hash/duplicated, outsider ticket or not) x 5 single-list delivery shapes x 2 round seeds; part B: all sequences of L individual ticket messages over 13 letters (repeats allowed) x position of the ticket-less block (6 incl. absent); part C: all sequences of <= 3 messages over 22 letters (block / notarization with 7 representative lists, 8 ticket letters), at most one block message; oracle after every delivery; distinct = (delivery shape, #valid distinct miners, tickets held, notarized?) classes"
 	run.Bounds["ticket_message_sequence_length"] = L
@@ -219,32 +206,6 @@ func maxI64(a, b int64) int64 {
 		return a
 	}
 	return b
-}
-
-func c31Path(key string) string  { return strings.SplitN(key, ":", 4)[1] }
-func c31Kinds(key string) []string {
-	i := strings.Index(key, "[")
-	if i < 0 {
-		return nil
-	}
-	return strings.Split(strings.TrimSuffix(key[i+1:], "]"), ",")
-}
-func c31Subset(a, b []string) bool { // a strict subset of b
-	if len(a) >= len(b) {
-		return false
-	}
-	for _, x := range a {
-		found := false
-		for _, y := range b {
-			if x == y {
-				found = true
-			}
-		}
-		if !found {
-			return false
-		}
-	}
-	return true
 }
 
 func c31worker(run *ev.Run, L int) {
@@ -408,6 +369,7 @@ func (e *c31env) scenario(part string, seedSame bool, msgs []c31msg) {
 	}
 	var delivered []*block.VerificationTicket
 	var received []*block.Block
+	wasNotarized := false
 	for step, msg := range msgs {
 		switch msg.Type {
 		case "BLOCK":
@@ -433,8 +395,18 @@ func (e *c31env) scenario(part string, seedSame bool, msgs []c31msg) {
 			bm.Notarization = rn
 			mc.VerifHandleNotarizationMessage(e.m.Ctx, bm)
 			select {
-			case q := <-mc.VerifNotarizationQueue(): // what NotarizationProcessWorker does
-				if err := mc.VerifNotarizationProcess(e.m.Ctx, q); err != nil {
+			case q := <-mc.VerifNotarizationQueue(): // what NotarizationProcessWorker does (there: 30 s budget)
+				pctx, cancel := context.WithCancel(e.m.Ctx)
+				if lb, _ := mc.GetBlock(e.m.Ctx, e.H); lb == nil {
+					// the node does not hold B: notarizationProcess fetches it from other nodes, all of
+					// which are inactive here; the fetch can only fail, so its budget is cut to 25 ms
+					cancel()
+					pctx, cancel = context.WithTimeout(e.m.Ctx, 25*time.Millisecond)
+					so.Counters["notarization_for_unknown_block_fetch_attempts"]++
+				}
+				err := mc.VerifNotarizationProcess(pctx, q)
+				cancel()
+				if err != nil {
 					so.Outcomes["notarizationProcess-error:"+shortErr(err)]++
 				}
 			default:
@@ -488,37 +460,33 @@ func (e *c31env) scenario(part string, seedSame bool, msgs []c31msg) {
 			}
 		}
 		so.Evals++
-		if notarized && len(validMiners) < e.threshold {
-			// which non-contributing kinds does the block hold?
-			kinds := map[string]bool{}
+		if notarized && !wasNotarized && len(validMiners) < e.threshold {
+			// what do the tickets held by the block consist of?
+			unverified, dup := 0, 0
 			seen := map[string]bool{}
 			for _, vt := range held {
-				i, ok := e.refValid(vt)
+				_, ok := e.refValid(vt)
 				switch {
-				case i < 0:
-					kinds["non-miner"] = true
 				case !ok:
-					sig := vt.Signature
-					if sig == e.sig[fmt.Sprintf("%d/%d", i, tkOtherHash)] {
-						kinds["other-hash"] = true
-					} else {
-						kinds["bad-signature"] = true
-					}
+					unverified++
 				case seen[vt.VerifierID]:
-					kinds["duplicate"] = true
+					dup++
 				}
 				seen[vt.VerifierID] = true
 			}
-			ks := make([]string, 0, len(kinds))
-			for k := range kinds {
-				ks = append(ks, k)
+			class := "too-few-tickets"
+			if unverified > 0 {
+				class = "unverifiable-tickets-counted"
+			} else if dup > 0 {
+				class = "duplicate-tickets-counted"
 			}
-			sort.Strings(ks)
 			handler := map[string]string{"BLOCK": "processVerifyBlock", "NOTAR": "notarizationProcess", "NBLOCK": "handleNotarizedBlockMessage", "TICKET": "handleVerificationTicketMessage"}[msg.Type]
-			key := fmt.Sprintf("C31:%s:notarized-below-threshold:counts[%s]", handler, strings.Join(ks, ","))
-			so.violate(key, fmt.Sprintf("after %s the node treats block %s as notarized (%s) although only %d distinct miners have delivered a valid signature on its hash (threshold %d); tickets held by the block: %d", names[step], e.H[:8], strings.Join(where, ", "), len(validMiners), e.threshold, len(held)),
-				map[string]any{"part": part, "round_seed_equals_block_seed": seedSame, "messages": names, "failing_step": step, "threshold": e.threshold, "valid_distinct_miners": len(validMiners)})
+			key := fmt.Sprintf("C31:%s:notarized-below-threshold:%s", handler, class)
+			so.violateSized(key, fmt.Sprintf("after %s the node treats block %s as notarized (%s) although only %d distinct miners have delivered a valid signature on its hash (threshold %d); the block holds %d tickets, of which %d do not verify and %d repeat a verifier", names[step], e.H[:8], strings.Join(where, ", "), len(validMiners), e.threshold, len(held), unverified, dup),
+				map[string]any{"part": part, "round_seed_equals_block_seed": seedSame, "messages": names, "failing_step": step, "threshold": e.threshold, "valid_distinct_miners": len(validMiners)},
+				100*len(msgs)+len(delivered))
 		}
+		wasNotarized = notarized
 		shape := make([]string, 0, step+1)
 		for _, m := range msgs[:step+1] {
 			shape = append(shape, m.Type)
